@@ -207,6 +207,9 @@ func (x *Exec) callSite(fr *Frame, st *State, what string, callee *ssa.Function,
 		return nil
 	}
 	x.callSeen[tag] = true
+	if c, ok := st.Ghost["calls."+tag]; ok {
+		st.Ghost["calls."+tag] = x.u.Define("ncalls", Add(c, IntLit(1)))
+	}
 	if x.atTagUsed(top, tag) {
 		// at(Name#k, e): e in the state just before this call
 		snap := st.Clone()
@@ -358,7 +361,14 @@ func (x *Exec) havocAll(st *State) {
 		}
 	}
 	st.Heap = keep
-	st.Ghost = map[string]Term{}
+	ng := map[string]Term{}
+	for k, v := range st.Ghost {
+		// path counters (called(), spawned()) and loop variants belong to the verifier, not to the program state
+		if strings.HasPrefix(k, "calls.") || k == "go.count" || strings.HasPrefix(k, "variant.") {
+			ng[k] = v
+		}
+	}
+	st.Ghost = ng
 	st.Epoch = x.nextEpoch()
 	st.Mix = nil
 	na := x.u.Fresh("alloc", SInt)
@@ -836,6 +846,26 @@ func (x *Exec) selectInstr(fr *Frame, st *State, t *ssa.Select) error {
 	// channel invariants ("recv field (T).ch ensures e") for the receive cases
 	pos := 2
 	for ci, sc := range t.States {
+		if sc.Dir == types.SendOnly {
+			// a send case: if chosen, the value is appended to the channel's ghost log
+			cv, err := x.val(fr, st, sc.Chan)
+			if err != nil {
+				return err
+			}
+			xv, err := x.val(fr, st, sc.Send)
+			if err != nil {
+				return err
+			}
+			if g, ok, err := x.recvInvariant(fr, st, sc.Chan, xv); err != nil {
+				return err
+			} else if ok {
+				x.u.AddObligation(x.topName, "send-inv", t.Pos(), x.labels, "value sent satisfies the channel invariant", And(st.PC, Eq(idx, u.IntC(int64(ci)))), g)
+			}
+			if cv.P == nil && len(cv.S) == 1 {
+				x.logSend(st, Eq(idx, u.IntC(int64(ci))), cv.S[0], xv)
+			}
+			continue
+		}
 		if sc.Dir != types.RecvOnly {
 			continue
 		}
